@@ -112,10 +112,13 @@ func runC13(r *rt.Runner) {
 			if kind == kType1 {
 				for _, fs := range []int{1, 2} {
 					sr := &mon.SeekPlanReader{PlanReader: mon.PlanReader{Data: it.data}, FailSeek: fs}
-					_, err := runEntry(env, kind, sr)
+					got, err := runEntry(env, kind, sr)
 					c.Eval()
-					if sr.Seeks >= fs && err == nil {
-						c.Violation("seek-fault-swallowed", fmt.Sprintf("type1.Read: Seek call %d failed, but Read returned a nil error", fs), "")
+					// a failing Seek is not a read fault: the call may report it, or
+					// work around it (the bytes are all still obtainable by reading
+					// on) - but then the result has to be the complete one
+					if sr.Seeks >= fs && err == nil && (fullErr != nil || got != full) {
+						c.Violation("seek-fault-partial", fmt.Sprintf("type1.Read: Seek call %d failed and Read returned a nil error, but not the result of the undisturbed read", fs), "")
 					}
 					c.Count("seek faults injected")
 				}
